@@ -140,6 +140,9 @@ pub enum Payload {
     Stream(Vec<MsgSpec>),
     /// a valid message stream cut at a scaled position
     CutStream(Vec<MsgSpec>, u16),
+    /// a message stream damaged at the field level (C04's structure-aware mutations: counts, pointers, names, gate counts,
+    /// word sizes ...) - decodes far enough to reach the conversion code behind `scan()`
+    MutatedStream(Box<crate::props::c04::MutCase>),
 }
 
 impl Payload {
@@ -154,6 +157,7 @@ impl Payload {
             }
             Payload::Nested(msgs) => encode_record(&bzip2_compress(&encode_stream(msgs).0, 9), false),
             Payload::Stream(msgs) => encode_stream(msgs).0,
+            Payload::MutatedStream(c) => crate::props::c04::apply(c),
             Payload::CutStream(msgs, at) => {
                 let mut v = encode_stream(msgs).0;
                 let k = (*at as usize * (v.len() + 1)) >> 16;
@@ -313,6 +317,7 @@ fn payload_strategy() -> impl Strategy<Value = Payload> {
         2 => vec(gen::msg(opts), 0..=2).prop_map(Payload::Nested),
         2 => vec(gen::msg(opts), 0..=2).prop_map(Payload::Stream),
         2 => (vec(gen::msg(opts), 1..=2), any::<u16>()).prop_map(|(m, at)| Payload::CutStream(m, at)),
+        4 => crate::props::c04::mut_case_strategy().prop_map(|c| Payload::MutatedStream(Box::new(c))),
     ]
 }
 
